@@ -1,0 +1,9 @@
+//go:build !verif
+// +build !verif
+
+package config
+
+import "time"
+
+// verifNetTimeout is 0 without the verif tag: NetTimeout keeps its built-in value.
+func verifNetTimeout() time.Duration { return 0 }
